@@ -141,4 +141,5 @@ def run(ctx):
     res['evaluations'] += total + total2
     res['mismatches'] += len(bad) + len(bad2)
     res['distribution'].update({'memcache_op_lists': total, 'shard_cases': total2})
-    return res
+    from props import relcorr
+    return relcorr.memo_oracle(ctx, res, 'C08')
